@@ -100,6 +100,22 @@ Example C09_ex_ambiguous :
             [OLookM 0 5; OSel 0 5; OSel 0 7; OLookF 0 7])
   = [RM 2 [0]%Z (-2); RS SAmbig; RS (SField [2]%Z); RF 1 [2]%Z].
 Proof. vm_compute. reflexivity. Qed.
+(* diamond: T0 struct{T1;T2}, T1 struct{T3}, T2 struct{Y int; *T3}, T3 struct{X int} with method M, T4 struct{T3;T1}
+   (names: X=0 Y=1 M=5 T0..T4=10..14).  T3 is reached from T0 through two embedded fields at the same depth 2: X, M and
+   the embedded field T3 itself are ambiguous in T0 (both occurrences counted: the visited-depth map skips a type only
+   when it was seen at a SHALLOWER depth; the second lookup is the cached marker); Y is not; in the skewed T4 the
+   shallower T3 wins *)
+Definition ex_diamond : env :=
+  [ mkT 10 (KStruct [mkField 11 (FVal 1); mkField 12 (FVal 2)]) [];
+    mkT 11 (KStruct [mkField 13 (FVal 3)]) [];
+    mkT 12 (KStruct [mkField 1 FInt; mkField 13 (FPtr 3)]) [];
+    mkT 13 (KStruct [mkField 0 FInt]) [(5%N, false)];
+    mkT 14 (KStruct [mkField 13 (FVal 3); mkField 11 (FVal 1)]) [] ].
+Example C09_ex_diamond :
+  snd (run (init ex_diamond) [OLookF 0 0; OLookF 0 0; OLookM 0 5; OSel 0 0; OSel 0 5; OSel 0 13; OSel 0 1; OSel 4 0; OSel 4 5])
+  = [RF 2 [0; 0; 0]%Z; RF 2 [0; 0; 0]%Z; RM 2 [0; 0]%Z (-2); RS SAmbig; RS SAmbig; RS SAmbig;
+     RS (SField [1; 0]%Z); RS (SField [0; 0]%Z); RS (SMethod [0]%Z 0)].
+Proof. vm_compute. reflexivity. Qed.
 (* type switch: case T1, T2 / default / case nil / case T0 *)
 Example C09_ex_typeswitch :
   map (fun d => typeswitch d [Case [Some 1; Some 2]; Default; Case [None]; Case [Some 0; Some 1]]) [Some 2; Some 0; None; Some 1; Some 9]
